@@ -581,3 +581,269 @@ Proof.
   split; [exact readout_bwd|]. split; [exact chan_valid_shape|].
   split; [reflexivity|exact readout_order_NoDup].
 Qed.
+
+(* ================= D. bytes <-> i16 words, blocks ================= *)
+
+Lemma le_enc2_explicit x : le_enc 2 x = [x mod 256; x / 256 mod 256].
+Proof. reflexivity. Qed.
+Lemma le2_val lo h : le_val [lo; h] = lo + 256 * h.
+Proof. cbn [le_val]. lia. Qed.
+Lemma enc_words_cons z w : enc_words (z :: w) = le_enc 2 (of_signed 16 z) ++ enc_words w.
+Proof. reflexivity. Qed.
+Lemma enc_words_app a b : enc_words (a ++ b) = enc_words a ++ enc_words b.
+Proof. unfold enc_words. apply flat_map_app. Qed.
+Lemma enc_words_lenN w : lenN (enc_words w) = 2 * lenN w.
+Proof.
+  induction w as [|z w IH]; [reflexivity|]. rewrite enc_words_cons, lenN_app, lenN_cons, IH, le_enc_lenN. lia.
+Qed.
+Lemma enc_words_bytes w : bytes (enc_words w).
+Proof.
+  induction w as [|z w IH]; [constructor|]. rewrite enc_words_cons. apply bytes_app. split; [apply le_enc_bytes|assumption].
+Qed.
+
+Lemma to_signed16_ok' x : x < 65536 -> i16_ok (to_signed 16 x).
+Proof.
+  intros H. unfold i16_ok. pose proof (to_signed_range 16 x ltac:(lia) H) as R.
+  change (2 ^ (16 - 1)) with 32768 in R. lia.
+Qed.
+
+Lemma chunks2_le_ok : forall k s, (length s <= k)%nat -> bytes s -> Forall i16_ok (chunks2_le s).
+Proof.
+  induction k as [|k IH]; intros s Hk Hb.
+  - destruct s; [constructor|cbn [length] in Hk; lia].
+  - destruct s as [|lo [|h t]]; cbn [chunks2_le]; try constructor.
+    + inversion Hb as [|? ? Hl Hb']; subst. inversion Hb' as [|? ? Hh Hb'']; subst.
+      apply to_signed16_ok'. rewrite le2_val. unfold byte in *. lia.
+    + inversion Hb as [|? ? Hl Hb']; subst. inversion Hb' as [|? ? Hh Hb'']; subst.
+      apply IH; [cbn [length] in Hk; lia|assumption].
+Qed.
+
+Lemma enc_words_chunks : forall k s, length s = (2 * k)%nat -> bytes s -> enc_words (chunks2_le s) = s.
+Proof.
+  induction k as [|k IH]; intros s Hk Hb.
+  - destruct s; [reflexivity|discriminate].
+  - destruct s as [|lo [|h t]]; cbn [length] in Hk; try lia.
+    inversion Hb as [|? ? Hl Hb']; subst. inversion Hb' as [|? ? Hh Hb'']; subst. unfold byte in *.
+    cbn [chunks2_le]. rewrite enc_words_cons.
+    rewrite of_to_signed by (try lia; rewrite le2_val; change (2^16) with 65536; lia).
+    rewrite le_enc2_explicit, le2_val.
+    replace ((lo + 256 * h) mod 256) with lo by lia.
+    replace ((lo + 256 * h) / 256 mod 256) with h by lia.
+    cbn [app]. do 2 f_equal. apply IH; [lia|assumption].
+Qed.
+
+Lemma chunks_enc_words w : Forall i16_ok w -> chunks2_le (enc_words w) = w.
+Proof.
+  induction 1 as [|z w Hz Hw IH]; [reflexivity|].
+  rewrite enc_words_cons, le_enc2_explicit.
+  assert (B : of_signed 16 z < 65536) by (change 65536 with (2^16); apply of_signed_bound).
+  set (x := of_signed 16 z) in *.
+  change ([x mod 256; x / 256 mod 256] ++ enc_words w) with (x mod 256 :: x / 256 mod 256 :: enc_words w).
+  cbn [chunks2_le]. rewrite IH. f_equal. rewrite le2_val.
+  replace (x mod 256 + 256 * (x / 256 mod 256)) with x by lia.
+  apply to_of_signed; [lia|]. change (2^(16-1)) with 32768. unfold i16_ok in Hz. lia.
+Qed.
+
+Lemma of_signed16_small r : r < 65536 -> of_signed 16 (Z.of_N r) = r.
+Proof.
+  intros H. unfold of_signed. change (2^16) with 65536. rewrite Z.mod_small by lia. lia.
+Qed.
+
+(* words and bytes of one block / of all blocks agree *)
+Lemma block_words_bytes req c w : req <= 511 -> chan_valid c = true ->
+  enc_words (block_words req c w) = block_bytes req c w.
+Proof.
+  intros Hr Hc. destruct (readout_bwd c Hc) as [_ R].
+  unfold block_words, block_bytes. rewrite !enc_words_app.
+  change (enc_words [Z.of_N (chan_readout c); Z.of_N req])
+    with (le_enc 2 (of_signed 16 (Z.of_N (chan_readout c))) ++ le_enc 2 (of_signed 16 (Z.of_N req)) ++ []).
+  rewrite !of_signed16_small by lia. rewrite app_nil_r, <- app_assoc.
+  do 3 f_equal. destruct (req mod 2 =? 0); reflexivity.
+Qed.
+Lemma blocks_words_bytes req : req <= 511 -> forall cs ws, Forall (fun c => chan_valid c = true) cs ->
+  enc_words (blocks_words req cs ws) = blocks_bytes req cs ws.
+Proof.
+  intros Hr. induction cs as [|c ct IH]; intros ws Hv; [reflexivity|].
+  destruct ws as [|w wt]; [reflexivity|]. cbn [blocks_words blocks_bytes].
+  inversion Hv; subst. rewrite enc_words_app, block_words_bytes, IH by assumption. reflexivity.
+Qed.
+
+Lemma END_bytes : enc_words [END_WORD; END_WORD] = [204; 204; 204; 204].
+Proof. vm_compute. reflexivity. Qed.
+
+Lemma block_words_lenN req c w : lenN w = req -> lenN (block_words req c w) = spw req.
+Proof.
+  intros H. unfold block_words, spw. rewrite !lenN_app, H.
+  destruct (N.eqb_spec (req mod 2) 0) as [E|E]; rewrite ?lenN_cons, ?lenN_nil; lia.
+Qed.
+
+Lemma parse_blocks_words req : forall cs ws tail, length ws = length cs -> Forall (fun w => lenN w = req) ws ->
+  parse_blocks req (length cs) (blocks_words req cs ws ++ tail) = ws.
+Proof.
+  induction cs as [|c ct IH]; intros ws tail Hl Hw.
+  - destruct ws; [reflexivity|discriminate].
+  - destruct ws as [|w wt]; [discriminate|]. cbn [length] in Hl. inversion Hw as [|? ? Hw1 Hw2]; subst.
+    cbn [length parse_blocks blocks_words]. f_equal.
+    + unfold block_words. rewrite <- !app_assoc.
+      apply subN_mid; reflexivity.
+    + rewrite <- app_assoc. rewrite dropN_app_exact by (apply block_words_lenN; reflexivity).
+      apply IH; [lia|assumption].
+Qed.
+
+Lemma leqb_eq a b : list_eqb a b = true -> a = b.
+Proof.
+  revert b. induction a as [|x a IH]; intros [|y b]; cbn [list_eqb]; try discriminate; [reflexivity|].
+  intros H. apply andb_true_iff in H. destruct H as [H1 H2]. apply N.eqb_eq in H1. subst. f_equal. auto.
+Qed.
+Lemma leqb_refl a : list_eqb a a = true.
+Proof. induction a as [|x a IH]; cbn [list_eqb]; [reflexivity|]. rewrite N.eqb_refl. assumption. Qed.
+
+Lemma chunks2_le_length : forall k s, length s = (2 * k)%nat -> length (chunks2_le s) = k.
+Proof.
+  induction k as [|k IH]; intros s Hk.
+  - destruct s; [reflexivity|discriminate].
+  - destruct s as [|lo [|h t]]; cbn [length] in Hk; try lia. cbn [chunks2_le length]. f_equal. apply IH. lia.
+Qed.
+
+(* the waveforms of the blocks, read from the data bytes *)
+Fixpoint byte_waves (req : N) (n : nat) (d : list N) : list (list Z) :=
+  match n with
+  | O => []
+  | S k => chunks2_le (subN d 4 (2 * req)) :: byte_waves req k (dropN (bpc_of req) d)
+  end.
+
+Lemma blocks_pure_sound req : req <= 511 -> forall cs d, bytes d -> bpc_of req * lenN cs <= lenN d ->
+  blocks_pure req (bpc_of req) d cs = true ->
+  subN d 0 (bpc_of req * lenN cs) = blocks_bytes req cs (byte_waves req (length cs) d) /\
+  length (byte_waves req (length cs) d) = length cs /\
+  Forall (fun w => lenN w = req /\ Forall i16_ok w) (byte_waves req (length cs) d) /\
+  Forall (fun c => chan_valid c = true) cs.
+Proof.
+  intros Hreq. set (bpc := bpc_of req).
+  assert (Hb3 : 4 + 2 * req <= bpc) by (unfold bpc, bpc_of; lia).
+  induction cs as [|c t IH]; intros d Hb Hlen H.
+  - rewrite (@lenN_nil chan), N.mul_0_r. cbn [length byte_waves blocks_bytes]. repeat split; constructor.
+  - cbn [blocks_pure] in H. rewrite !andb_true_iff in H. destruct H as [[[H1 H2] H3] H4].
+    rewrite lenN_cons in Hlen.
+    replace (bpc * (lenN t + 1)) with (bpc + bpc * lenN t) in Hlen by lia.
+    destruct (readout_chan (le_val (subN d 0 2))) as [fc|] eqn:Er; [|discriminate].
+    apply chan_eqb_eq in H1. subst fc.
+    apply readout_fwd in Er. destruct Er as (Er1 & Er2 & _).
+    apply N.eqb_eq in H2.
+    assert (Hd : bpc * lenN t <= lenN (dropN bpc d)) by (rewrite dropN_length; lia).
+    destruct (IH (dropN bpc d) (bytes_dropN _ _ Hb) Hd H4) as (I1 & I2 & I3 & I4).
+    assert (Ls : lenN (subN d 4 (2 * req)) = 2 * req) by (apply subN_length; lia).
+    cbn [length byte_waves blocks_bytes]. fold bpc.
+    split; [|split; [|split]].
+    + rewrite lenN_cons. replace (bpc * (lenN t + 1)) with (bpc + bpc * lenN t) by lia.
+      rewrite subN_split, N.add_0_l.
+      replace (subN d bpc (bpc * lenN t)) with (subN (dropN bpc d) 0 (bpc * lenN t))
+        by (rewrite subN_dropN; f_equal; lia).
+      rewrite I1. f_equal.
+      unfold block_bytes.
+      replace bpc with (2 + (2 + (2 * req + (bpc - 4 - 2 * req)))) at 1 by lia.
+      rewrite !subN_split. change (0 + 2 + 2) with 4. change (0 + 2) with 2.
+      pose proof (le_subN_enc d 0 2 2%nat Hb ltac:(lia) eq_refl) as E0. rewrite <- Er1 in E0.
+      pose proof (le_subN_enc d 2 2 2%nat Hb ltac:(lia) eq_refl) as E2. rewrite H2 in E2.
+      rewrite E0, E2. do 2 f_equal.
+      rewrite (enc_words_chunks (N.to_nat req)); [|unfold lenN in Ls; lia|apply bytes_subN; assumption].
+      f_equal.
+      destruct (N.eqb_spec (req mod 2) 0) as [Ev|Od].
+      * replace (bpc - 4 - 2 * req) with 0 by (unfold bpc, bpc_of; lia). reflexivity.
+      * cbn [orb] in H3. apply leqb_eq in H3.
+        replace (bpc - 4 - 2 * req) with 2 by (unfold bpc, bpc_of; lia). exact H3.
+    + f_equal. exact I2.
+    + constructor; [|exact I3]. split.
+      * unfold lenN. rewrite (chunks2_le_length (N.to_nat req)); [lia|unfold lenN in Ls; lia].
+      * eapply chunks2_le_ok; [reflexivity|apply bytes_subN; assumption].
+    + constructor; assumption.
+Qed.
+
+Lemma blocks_words_i16 req : req <= 511 -> forall cs ws, Forall (fun c => chan_valid c = true) cs ->
+  Forall (fun w => lenN w = req /\ Forall i16_ok w) ws -> Forall i16_ok (blocks_words req cs ws).
+Proof.
+  intros Hr. induction cs as [|c ct IH]; intros ws Hv Hw; [constructor|].
+  destruct ws as [|w wt]; [constructor|]. cbn [blocks_words].
+  inversion Hv; subst. inversion Hw as [|? ? [_ Hw1] Hw2]; subst.
+  destruct (readout_bwd c H1) as [_ R].
+  apply Forall_app. split; [|apply IH; assumption].
+  unfold block_words. apply Forall_app. split.
+  - repeat constructor; unfold i16_ok; lia.
+  - apply Forall_app. split; [assumption|]. destruct (req mod 2 =? 0); repeat constructor; unfold i16_ok; lia.
+Qed.
+Lemma pwb_words_i16 req cs ws : req <= 511 -> Forall (fun c => chan_valid c = true) cs ->
+  Forall (fun w => lenN w = req /\ Forall i16_ok w) ws -> Forall i16_ok (pwb_words req cs ws).
+Proof.
+  intros. unfold pwb_words. apply Forall_app. split; [apply blocks_words_i16; assumption|].
+  repeat constructor; unfold i16_ok, END_WORD; lia.
+Qed.
+
+(* data bytes = encoded words *)
+Lemma pwb_words_bytes req cs ws : req <= 511 -> Forall (fun c => chan_valid c = true) cs ->
+  enc_words (pwb_words req cs ws) = blocks_bytes req cs ws ++ [204; 204; 204; 204].
+Proof.
+  intros Hr Hv. unfold pwb_words. rewrite enc_words_app, blocks_words_bytes, END_bytes by assumption. reflexivity.
+Qed.
+
+(* ---- masks ---- *)
+Lemma chans_mask_bits cs i : N.testbit (chans_mask cs) i = existsb (fun c => chan_readout c - 1 =? i) cs.
+Proof.
+  induction cs as [|c t IH]; cbn [chans_mask fold_right existsb]; [apply N.bits_0|].
+  rewrite N.setbit_eqb. fold (chans_mask t). rewrite IH. reflexivity.
+Qed.
+
+Lemma In_mask_chan_list c num :
+  In c (mask_chan_list num) <-> exists j, readout_chan_d (j + 1) = c /\ j < 79 /\ N.testbit num j = true.
+Proof.
+  unfold mask_chan_list. rewrite in_map_iff. split; intros (j & E & H); exists j; (split; [exact E|]).
+  - apply mask_bits_In in H. exact H.
+  - apply mask_bits_In. exact H.
+Qed.
+
+Lemma chans_mask_list num : num < 2 ^ 79 -> chans_mask (mask_chan_list num) = num.
+Proof.
+  intros H. apply N.bits_inj. intros i. rewrite chans_mask_bits.
+  destruct (N.testbit num i) eqn:T.
+  - assert (Hi : i < 79).
+    { destruct (N.lt_ge_cases i 79) as [L|L]; [assumption|]. rewrite (bound_high_bits num 79 i H L) in T. discriminate. }
+    apply existsb_exists. exists (readout_chan_d (i + 1)). split.
+    + apply In_mask_chan_list. exists i. auto.
+    + destruct (readout_chan_d_ok (i + 1) ltac:(lia)) as (_ & -> & _). apply N.eqb_eq. lia.
+  - destruct (existsb _ _) eqn:X; [|reflexivity]. exfalso.
+    apply existsb_exists in X. destruct X as (c & Hc & Ec).
+    apply In_mask_chan_list in Hc. destruct Hc as (j & <- & Hj & Tj).
+    destruct (readout_chan_d_ok (j + 1) ltac:(lia)) as (_ & R & _). rewrite R in Ec. apply N.eqb_eq in Ec.
+    assert (j = i) by lia. subst. congruence.
+Qed.
+
+Lemma mask_chan_list_valid num : Forall (fun c => chan_valid c = true) (mask_chan_list num).
+Proof.
+  apply Forall_forall. intros c Hc. apply In_mask_chan_list in Hc.
+  destruct Hc as (j & <- & Hj & _). apply (readout_chan_d_ok (j + 1)). lia.
+Qed.
+Lemma mask_chan_list_ok num : chans_ok (mask_chan_list num).
+Proof. split; [apply mask_chan_list_valid|apply mask_chan_list_sorted]. Qed.
+
+Lemma after_of_char_spec b chip : after_of_char b = Some chip -> b = 65 + chip /\ chip <= 3.
+Proof.
+  unfold after_of_char.
+  destruct (N.eqb_spec b 65); [intros H; inversion H; subst; lia|].
+  destruct (N.eqb_spec b 66); [intros H; inversion H; subst; lia|].
+  destruct (N.eqb_spec b 67); [intros H; inversion H; subst; lia|].
+  destruct (N.eqb_spec b 68); [intros H; inversion H; subst; lia|]. discriminate.
+Qed.
+Lemma trigger_of_spec b t : trigger_of b = Some t -> b = t /\ (t = 0 \/ t = 1 \/ t = 3).
+Proof.
+  unfold trigger_of.
+  destruct (N.eqb_spec b 0); [intros H; inversion H; subst; lia|].
+  destruct (N.eqb_spec b 1); [intros H; inversion H; subst; lia|].
+  destruct (N.eqb_spec b 3); [intros H; inversion H; subst; lia|]. discriminate.
+Qed.
+
+Lemma split_pwb (l : list N) : 56 <= lenN l ->
+  l = subN l 0 1 ++ subN l 1 1 ++ subN l 2 1 ++ subN l 3 1 ++ subN l 4 6 ++ subN l 10 2 ++ subN l 12 6 ++
+      subN l 18 2 ++ subN l 20 2 ++ subN l 22 2 ++ subN l 24 10 ++ subN l 34 10 ++ subN l 44 4 ++ subN l 48 2 ++
+      subN l 50 1 ++ subN l 51 1 ++ subN l 52 (lenN l - 52).
+Proof.
+  intros L. repeat rewrite subN_join' by lia. symmetry. apply subN_all. lia.
+Qed.
